@@ -46,6 +46,7 @@ struct SimAlloc {
   Fnv trace;
   void (*on_event)(SimAlloc *, int kind, size_t size, size_t off) = nullptr;  // scheduler / tracer hook
   void *hook_data = nullptr;
+  FILE *dump = nullptr;  // development aid: every event as text
   struct MIR_alloc vt;
   const char *label = "ctx";
 
@@ -94,6 +95,7 @@ struct SimAlloc {
   }
   void ev(int kind, size_t size, size_t off) {
     events++; trace.byte((uint8_t) kind); trace.u64(size); trace.u64(off);
+    if (dump) fprintf(dump, "%d %zu %zu\n", kind, size, off);
     if (on_event) on_event(this, kind, size, off);
   }
   void *take(size_t size, bool zero) {
